@@ -452,6 +452,30 @@ theorem cond_eq_ite (variables rngs : LFilter) (attrs : List (String × Int)) (p
   · intro c hc _; simp [anyMatch, hin _ hmem c (wcols_sub_cols _ c hc), inFilter]
   · intro r hr hs; simp [anyMatch, hrng _ hmem r hr hs]
 
+/-- **cond_numeric_pred.** A numeric predicate is read as `pred != 0` on both sides: `nn.cond(p, t, f, …)` agrees with
+`t(…) if p else f(…)` for every integer `p` — negative values take the true branch.  Reading it as `p > 0` (seeded
+change C05_g) differs exactly on the negative predicates. -/
+theorem cond_numeric_pred (variables rngs : LFilter) (attrs : List (String × Int)) (p : Int) (t f : Fn)
+    (args : List Int) (s : ScopeSt) (hwf : VarsWF s.vars) (hfz : s.FrozenOk)
+    (htr : BranchesTrace variables rngs attrs [t, f] args s)
+    (hin : ∀ b, b ∈ [t, f] → ∀ c, c ∈ cols b.body → inFilter variables c = true)
+    (hrng : ∀ b, b ∈ [t, f] → ∀ r, r ∈ rngDeps b.body → (alookup r s.rngs).isSome = true →
+      inFilter rngs r = true) :
+    Agree (if p ≠ 0 then runFn attrs t args s else runFn attrs f args s)
+      (liftCond variables rngs attrs (predOfInt p) t f args s) ∧
+    (predOfInt p ≠ decide (p > 0) ↔ p < 0) := by
+  refine ⟨?_, ?_⟩
+  · have h := cond_eq_ite variables rngs attrs (predOfInt p) t f args s hwf hfz htr hin hrng
+    by_cases hp : p = 0
+    · subst hp; simpa [pyCond, predOfInt] using h
+    · simpa [pyCond, predOfInt, hp] using h
+  · simp only [predOfInt, ne_eq, decide_not]
+    by_cases h0 : p = 0
+    · subst h0; simp
+    · by_cases hpos : p > 0
+      · simp [h0, hpos]; omega
+      · simp [h0, hpos]; omega
+
 /-- what A-COND costs: a branch that is *not* selected still has to trace.  If it raises, the lifted form raises
 although the Python `if` would not have run it (documented in `lift.cond`'s docstring). -/
 theorem cond_traces_both_branches (variables rngs : LFilter) (attrs : List (String × Int)) (t f : Fn)
